@@ -159,6 +159,9 @@ def run(tier, seed):
     for unimock in (False, True):
         label = "on" if unimock else "off"
         cases = gen_cases(n, seed, unimock, label)
+        if tier != "quick":
+            # arity stress: up to 40 parameters
+            cases += gen_cases(60, seed, unimock, label + "w", profile={"max_arity": 40, "p_same_type": 0.8})
         st = selftest.case("selftest_c01" + label)
         ws = core.Workspace(PROP, label, unimock=unimock, deps=())
         ws.extend(cases + [st])
